@@ -235,7 +235,42 @@ theorem World.gen_ok {W : World} (hW : W.Good) {aS aD s : Nat} (ha : W.ρ aS aD)
     rcases hp with rfl | hp
     · exact fun e => hsa e.symm
     · exact W.unbS hs p hp
-  refine ⟨⟨?_, ?_, fun v hv => ?_, fun v hv => ?_⟩,
+  have hunb : ∀ x y, (W.gen aS (tS :: tsS) s aD (tD :: tsD)).ρ x y →
+      (∀ p ∈ (W.gen aS (tS :: tsS) s aD (tD :: tsD)).σS, p.1 ≠ x) ∧
+      (∀ p ∈ (W.gen aS (tS :: tsS) s aD (tD :: tsD)).σD, p.1 ≠ y) := by
+    intro x y r
+    rcases r with r | r
+    · have hy : y ≠ aD := fun e => r.2 (hW.inj _ _ _ r.1 (e ▸ ha))
+      have hylt : y < W.nD := hW.scD y (.inr ⟨x, r.1⟩)
+      constructor
+      · intro p hp
+        simp only [World.gen, List.mem_cons] at hp
+        rcases hp with rfl | hp
+        · exact fun e => r.2 e.symm
+        · exact (hW.unb x y r.1).1 p hp
+      · intro p hp
+        simp only [World.gen, List.mem_append] at hp
+        rcases hp with hp | hp
+        · rcases genΔ_keys _ _ _ p hp with h | h
+          · omega
+          · omega
+        · exact (hW.unb x y r.1).2 p hp
+    · constructor
+      · intro p hp
+        simp only [World.gen, List.mem_cons] at hp
+        rw [r.1]
+        rcases hp with rfl | hp
+        · exact fun e => hsa e.symm
+        · exact W.unbS hs p hp
+      · intro p hp
+        simp only [World.gen, List.mem_append] at hp
+        rw [r.2, hlast]
+        rcases hp with hp | hp
+        · rcases genΔ_keys _ _ _ p hp with h | h
+          · omega
+          · simp only [List.length_cons] at h; omega
+        · have := hσD p hp; omega
+  refine ⟨⟨?_, ?_, fun v hv => ?_, fun v hv => ?_, hunb⟩,
     ⟨?_, ⟨[(aS, Term.list (tS :: tsS) (.var s))], rfl⟩, ⟨genΔ (tD :: tsD) aD W.nD, rfl⟩, Nat.le_refl _,
       Nat.le_add_right _ _, fun v hv => ?_, fun v hv => ?_⟩, ?_⟩
   · intro x b b' h h'
